@@ -48,6 +48,8 @@ pub struct Spec {
     /// instead of exhausting the machine)
     pub mem_limit: Option<u64>,
     pub stdout: Stdout,
+    /// the same fault modes for stderr (Capture = captured through a pipe)
+    pub stderr: Stdout,
 }
 
 #[derive(Clone, Debug, PartialEq, Eq)]
@@ -86,7 +88,7 @@ impl Outcome {
 
 static WATCH: OnceLock<Mutex<HashMap<u32, Instant>>> = OnceLock::new();
 static WATCH_STARTED: AtomicBool = AtomicBool::new(false);
-pub const WATCHDOG_SECS: u64 = 60;
+pub const WATCHDOG_SECS: u64 = 20;
 
 fn watch() -> &'static Mutex<HashMap<u32, Instant>> {
     WATCH.get_or_init(|| Mutex::new(HashMap::new()))
@@ -142,7 +144,29 @@ pub fn run(spec: &Spec) -> Outcome {
             }
         },
     }
-    c.stderr(Stdio::piped());
+    match spec.stderr {
+        Stdout::Capture => {
+            c.stderr(Stdio::piped());
+        }
+        Stdout::DevFull => match std::fs::OpenOptions::new().write(true).open("/dev/full") {
+            Ok(f) => {
+                c.stderr(Stdio::from(f));
+            }
+            Err(_) => {
+                c.stderr(Stdio::null());
+            }
+        },
+        Stdout::ClosedPipe => unsafe {
+            use std::os::unix::io::FromRawFd;
+            let mut fds = [0i32; 2];
+            if libc::pipe2(fds.as_mut_ptr(), libc::O_CLOEXEC) == 0 {
+                libc::close(fds[0]);
+                c.stderr(Stdio::from_raw_fd(fds[1]));
+            } else {
+                c.stderr(Stdio::null());
+            }
+        },
+    }
     match &spec.stdin {
         Stdin::Null => {
             c.stdin(Stdio::null());
@@ -203,7 +227,7 @@ pub fn run(spec: &Spec) -> Outcome {
     watch().lock().unwrap().insert(pid, t0);
 
     let so = child.stdout.take();
-    let mut se = child.stderr.take().unwrap();
+    let se = child.stderr.take();
     let t_out = std::thread::spawn(move || {
         let mut b = Vec::new();
         if let Some(mut so) = so {
@@ -213,7 +237,9 @@ pub fn run(spec: &Spec) -> Outcome {
     });
     let t_err = std::thread::spawn(move || {
         let mut b = Vec::new();
-        let _ = se.read_to_end(&mut b);
+        if let Some(mut se) = se {
+            let _ = se.read_to_end(&mut b);
+        }
         b
     });
     if let Stdin::Pipe { data, chunks } = &spec.stdin {
